@@ -93,6 +93,10 @@ def classify_exception(exc: BaseException) -> Optional[PamsCrash]:
     return None
 
 
+class CaseTimeout(BaseException):
+    """one case ran longer than the watchdog allows (pams is looping, or the harness is)."""
+
+
 class CaseInfo:
     """what a check reports about one executed case."""
 
@@ -199,13 +203,37 @@ class Recorder:
     def shrink_budget_exceeded(self) -> bool:
         return self.first_failure_time is not None and time.time() - self.first_failure_time > self.shrink_budget_s
 
+    watchdog_s = 600
+    timeout_violation: Optional[str] = None  # oracle name to report when the watchdog fires (properties about termination)
+
+    def _run_with_watchdog(self, case: Any) -> CaseInfo:
+        """a case that does not come back would hang the whole check: bound it with SIGALRM (worker processes run their
+        cases in the main thread).  Ordinarily a timeout is a harness error (exit 2, never a violation); a part whose
+        property is termination itself names the oracle to report instead."""
+        import signal
+
+        def on_alarm(signum, frame):
+            raise CaseTimeout()
+
+        old = signal.signal(signal.SIGALRM, on_alarm)
+        signal.alarm(int(self.watchdog_s))
+        try:
+            return self.check_case(case)
+        except CaseTimeout:
+            if self.timeout_violation:
+                raise Violation(self.timeout_violation, f"the call did not return within {self.watchdog_s} s (a handful of dictionary operations is expected)")
+            raise RuntimeError(f"case did not finish within {self.watchdog_s} s")
+        finally:
+            signal.alarm(0)
+            signal.signal(signal.SIGALRM, old)
+
     def __call__(self, case: Any) -> None:
         """run one case; raises Violation (only) if the property fails on it."""
         if self.shrink_budget_exceeded():
             return  # let the shrinker terminate; the best failing case so far is kept in last_failure
         res = self.res
         try:
-            info = self.check_case(case)
+            info = self._run_with_watchdog(case)
         except Violation as v:
             k = match_known(self.known, v.signature)
             if k is not None:
@@ -292,7 +320,7 @@ def _shard_entry(args):
             res = part["shard"](shard=shard, n_shards=n_shards, tier=tier, seed=seed, budget=budget)
         else:
             res = standard_shard(mod.ID, part["check"], part["strategy"], shard, n_shards, tier, seed, budget,
-                                 part_name=part_name)
+                                 part_name=part_name, watchdog=part.get("watchdog"))
         res["nontrivial_hashes"] = list(res["nontrivial_hashes"])
         if res.get("violation") is not None:
             res["violation"].setdefault("part", part_name)
@@ -305,10 +333,12 @@ def _shard_entry(args):
 
 
 def standard_shard(prop_id: str, check_case, strategy_fn, shard: int, n_shards: int, tier: str, seed: int, budget: int,
-                   shrink_budget_s: Optional[float] = None, part_name: str = "") -> Dict[str, Any]:
+                   shrink_budget_s: Optional[float] = None, part_name: str = "", watchdog=None) -> Dict[str, Any]:
     """the usual shard body: run Hypothesis for ``budget`` examples with a per-shard seed."""
     rec = Recorder(prop_id, check_case)
     rec.shrink_budget_s = shrink_budget_s if shrink_budget_s is not None else (40.0 if tier == "quick" else 150.0)
+    if watchdog:
+        rec.watchdog_s, rec.timeout_violation = watchdog
     strategy = strategy_fn(tier)
     run_hypothesis(rec, strategy, max_examples=budget, seed=derive_seed(prop_id, part_name, seed, shard))
     res = rec.res
